@@ -153,6 +153,7 @@ esl_min_ConjugateGradientDescent(ESL_MIN_CFG *cfg, double *x, int n,
     return eslOK;
   }
   
+  fx = oldfx;                   /* if max_iterations < 1 the loop body never runs: *opt_fx is f() at the start point */
   for (i = 1; i <= max_iterations; i++)
     {
       if (dat) {
